@@ -217,6 +217,7 @@ def rule_c(repo, res, m, where):
             has_all = False
             extra = []
             for d in disj:
+                matched = False
                 if isinstance(d, ast.Call) and dotted(d.func) == "all" and isinstance(d.args[0], ast.GeneratorExp):
                     ge = d.args[0]
                     gg = ge.generators[0]
@@ -224,8 +225,8 @@ def rule_c(repo, res, m, where):
                         k, v = [dotted(e) for e in gg.target.elts]
                         e = ge.elt
                         if isinstance(e, ast.BoolOp) and isinstance(e.op, ast.And) and [norm(x) for x in e.values] == ["%s in %s" % (k, col), "%s in %s[%s]" % (v, col, k)]:
-                            has_all = True
-                else:
+                            has_all = matched = True
+                if not matched:
                     extra.append(norm(d))
             ok = has_all and all(x in ("len(%s) == 0" % col, "not %s" % col) for x in extra)
             if not ok:
